@@ -127,3 +127,19 @@ func (v *VerifRouter) Handle(wire []byte, remote netip.AddrPort) ([]byte, error)
 	pool.ReleaseBuf(b)
 	return out, nil
 }
+
+// VerifResourceLimiter builds the router's resource limiter (global bucket + per-subnet buckets) from a limiter
+// configuration and returns its decision function ("ok" | "global" | "client").
+func VerifResourceLimiter(cfg LimiterConfig) (func(netip.Addr, int) string, func()) {
+	l := initResourceLimiter(cfg)
+	return func(a netip.Addr, n int) string {
+		switch l.AllowN(a, n) {
+		case nil:
+			return "ok"
+		case errGlobalResLimit:
+			return "global"
+		default:
+			return "client"
+		}
+	}, func() { l.Close() }
+}
